@@ -7,6 +7,7 @@ CONSTANTS
   MaxKills = 1
   MaxFails = 1
   FixedHandlers = TRUE
+  FixedMarker = TRUE
   Timely = FALSE
 VIEW view
 INVARIANT TypeOK
@@ -22,5 +23,6 @@ INVARIANT NoHang
 INVARIANT NoTimeoutWhenTimely
 INVARIANT FailureReleasesLock
 INVARIANT GlobalStateRestored
+INVARIANT UnfaultedNeverFails
 PROPERTY NoPartialLoad
 PROPERTY NextBuildsAfresh
